@@ -7,6 +7,7 @@ package quic
 import (
 	"encoding/json"
 	"fmt"
+	"sort"
 
 	"github.com/refraction-networking/uquic/internal/verifmc/explore"
 )
@@ -124,7 +125,134 @@ func c09QFOne(fr QUICFrames, L, base int, acc *c09Acc) (*explore.Fail, int64) {
 			return f, n
 		}
 	}
+	// the same fixed layout handed the slice of another datagram of the flight
+	for _, m := range c09QFReuseLens(fr, L) {
+		tiles := c09QFTiles(fr, m)
+		if f := c09QFReusedOne("BuildForDatagram", fr, m, base, tiles, acc, func(d []byte) ([]byte, error) { return fr.BuildForDatagram(1, d, uint64(base)) }); f != nil {
+			return f, n + 1
+		}
+		n++
+		if base == 0 {
+			if f := c09QFReusedOne("Build", fr, m, base, tiles, acc, func(d []byte) ([]byte, error) { return fr.Build(d) }); f != nil {
+				return f, n + 1
+			}
+			n++
+		}
+	}
 	return nil, n
+}
+
+// ---- a fixed layout reused for the other datagrams of a flight ------------------------------
+//
+// uPacketPacker hands the SAME QUICFrames value the slice of every Initial datagram of the
+// flight (and of every retransmission), so a layout that tiles the slice it was written for
+// also meets slices of other lengths: the short tail of the flight, a longer datagram behind a
+// CryptoLength plan. Where the layout still tiles the slice it is handed (a last frame with
+// Length 0 stretches), the full oracle applies. Where it does not, the layout is outside the
+// property's quantifier as far as completeness goes and an error is the expected answer; what
+// the statement demands of every call whatever the configuration is judged: no panic, only
+// PADDING/PING/CRYPTO frames, and no CRYPTO frame that reaches outside the data it was handed
+// or carries anything but the stream's bytes at its absolute offset (shifted, zero-extended).
+
+// c09QFCells returns the CRYPTO cells of a layout resolved against an n byte slice
+// (Length 0 = "the rest"); ok is false when a cell does not lie inside the slice.
+func c09QFCells(fr QUICFrames, n int) (cells [][2]int, ok bool) {
+	ok = true
+	for _, f := range fr {
+		c, isCrypto := f.(QUICFrameCrypto)
+		if !isCrypto {
+			continue
+		}
+		off, ln := c.Offset, c.Length
+		if ln == 0 {
+			ln = n - off
+		}
+		if off < 0 || ln < 0 || off+ln > n {
+			ok = false
+		}
+		cells = append(cells, [2]int{off, ln})
+	}
+	return cells, ok
+}
+
+// c09QFTiles: the layout's CRYPTO cells lie inside an n byte slice and cover it exactly once.
+func c09QFTiles(fr QUICFrames, n int) bool {
+	if len(fr) == 0 {
+		return true // documented: one CRYPTO frame with everything
+	}
+	cells, ok := c09QFCells(fr, n)
+	if !ok || len(cells) == 0 {
+		return false
+	}
+	sort.Slice(cells, func(i, j int) bool {
+		if cells[i][0] != cells[j][0] {
+			return cells[i][0] < cells[j][0]
+		}
+		return cells[i][1] < cells[j][1]
+	})
+	pos := 0
+	for _, c := range cells {
+		if c[0] != pos {
+			return false
+		}
+		pos += c[1]
+	}
+	return pos == n
+}
+
+// c09QFReuseLens: the other slice lengths a layout written for an L byte slice is tried on:
+// 0, 1, and one below / at / one above every cell boundary of the layout (so every cell is met
+// by a slice that ends just before it, inside it at either edge, and just behind it), L itself
+// excluded.
+func c09QFReuseLens(fr QUICFrames, L int) []int {
+	c := []int{0, 1, L - 1, L + 1}
+	for _, f := range fr {
+		if q, ok := f.(QUICFrameCrypto); ok {
+			for _, b := range []int{q.Offset, q.Offset + q.Length} {
+				c = append(c, b-1, b, b+1)
+			}
+		}
+	}
+	out := c09UniqSorted(c, 0, L+1)
+	for i, x := range out {
+		if x == L {
+			return append(out[:i:i], out[i+1:]...)
+		}
+	}
+	return out
+}
+
+func c09QFReusedOne(api string, fr QUICFrames, n, base int, tiles bool, acc *c09Acc, call func(data []byte) ([]byte, error)) *explore.Fail {
+	who := "QUICFrames." + api + ":reused"
+	return c09Safe(who, func() *explore.Fail {
+		p, err := call(c09Slice(base, n))
+		if err != nil {
+			if tiles {
+				return explore.Failf(who+":tiling-rejected", "layout %v tiles the %d byte slice it is handed but %s returned %v", fr, n, api, err)
+			}
+			acc.out.Add("QUICFrames reused on a slice it does not tile: rejected")
+			return nil
+		}
+		cov := c09NewCover(base, n)
+		if kind, msg := cov.add(p); kind != "" {
+			return explore.Failf(who+":"+kind, "layout %v handed a %d byte slice at base offset %d (tiles it: %v): %s", fr, n, base, tiles, msg)
+		}
+		miss := cov.missing()
+		if !tiles {
+			// not rejected although it does not tile: outside the quantifier, recorded only
+			cls := "complete"
+			if miss >= 0 {
+				cls = "truncated"
+			}
+			acc.out.Add("QUICFrames reused on a slice it does not tile: built, every frame true, " + cls + " (completeness outside the quantifier, no verdict)")
+			return nil
+		}
+		if miss >= 0 {
+			return explore.Failf(who+":truncated", "layout %v tiles the %d byte slice at base offset %d it is handed but no CRYPTO frame carries stream offset %d", fr, n, base, miss)
+		}
+		acc.out.Add("QUICFrames reused on another slice it tiles n=" + c09LenClass(n) + " " + cov.class())
+		return nil
+	})
 }
 
 // c09QFLayouts calls visit for every tiling layout of the case (visit returns false to stop).
@@ -220,7 +348,7 @@ func c09QFNonTilings(L int) map[string]QUICFrames {
 }
 
 func c09QFramesPart() explore.Part {
-	const rule = "QUICFrames.Build / BuildForDatagram on every layout that tiles its slice: <= 4 cells cut at the boundary points of the slice (all points for L <= 6; else 1,2,62..65,L/2,L-64,L-63,L-2,L-1 and the points where base+p crosses 64 / 16384), last cell explicit or Length 0, optional empty trailing frame, every frame order, three PING/PADDING decorations; slice lengths {0,1,2,3,5,63,64,65,1162,2300} x base offsets {0,63,64,16383,16384}; independent frame reader + coverage bitmap. Non-tiling layouts are executed for the record only (outside the property's quantifier)"
+	const rule = "QUICFrames.Build / BuildForDatagram on every layout that tiles its slice: <= 4 cells cut at the boundary points of the slice (all points for L <= 6; else 1,2,62..65,L/2,L-64,L-63,L-2,L-1 and the points where base+p crosses 64 / 16384), last cell explicit or Length 0, optional empty trailing frame, every frame order, three PING/PADDING decorations; slice lengths {0,1,2,3,5,63,64,65,1162,2300} x base offsets {0,63,64,16383,16384}; independent frame reader + coverage bitmap. Every one of these layouts is also handed, as the packer does with a fixed layout over the datagrams of a flight, slices of other lengths (0, 1, L-1, L+1 and one below / at / one above each of its cell boundaries): where it still tiles the slice the full oracle applies; where it does not, an error is accepted and a built payload must consist of PADDING/PING/CRYPTO frames whose CRYPTO ranges lie inside the slice and carry its bytes at their absolute offsets (no panic, no shift, no zero-extension; completeness not judged). Hand-picked non-tiling layouts (gap, overlap, lowest offset != 0, ...) are executed for the record only (outside the property's quantifier)"
 	cases := c09QFCases()
 	run := func(e explore.Env, i int, acc *c09Acc, only QUICFrames) explore.CaseResult {
 		c := cases[i]
@@ -270,7 +398,7 @@ func c09QFramesPart() explore.Part {
 			acc := c09NewAcc()
 			rep := explore.RunCases(e, len(cases), 1, true, func(i int) explore.CaseResult { return run(e, i, acc, nil) })
 			acc.samples = []any{"QUICFrames{Crypto{64,0}, Crypto{0,63}, Crypto{63,1}} on a 2300 byte slice at base 16383", "QUICFrames{} on an empty slice"}
-			return acc.finish(rep, rule, fmt.Sprintf("all tiling layouts of %d (slice length, base offset, decoration) cases", len(cases)))
+			return acc.finish(rep, rule, fmt.Sprintf("all tiling layouts of %d (slice length, base offset, decoration) cases, each also handed <= 13 slices of other lengths", len(cases)))
 		},
 		Replay: func(e explore.Env, raw json.RawMessage) *explore.Violation {
 			var r struct{ Case int }
